@@ -5,6 +5,15 @@ ROOT = os.path.dirname(os.path.dirname(os.path.abspath(__file__)))
 
 # id: (category, technique, level text, level note, design ref)
 CHECKS = {
+ "C01": ("exploration", "bounded exhaustive input enumeration, real builder vs string/set reference model",
+         "Every FASTA record over {A,C,G,T,N} up to a length bound at k=5/7, structured families for all 30 k, forced middle-base collisions, N-restart families and multi-record files are each built by the real SkaDict::new (both widths, both strand modes) and compared entry by entry with the reference model; plus CLI build+nk. Window, restart and table-index errors live in these small spaces, so complete enumeration finds them with certainty.",
+         "Trusts the reference model (validated at setup against the repository's expected outputs) and needletail's FASTA parsing; inputs without k-mers may be refused or empty.", "DESIGN.md §5 C01"),
+ "C02": ("exploration", "bounded exhaustive metamorphic enumeration on the real builder (no oracle needed)",
+         "For every input of the families and every transformation in the statement (all subsets of records reverse-complemented, all record permutations, all case masks, all line widths, gzip, all sample permutations) the real dictionary of the transformed file equals that of the original.",
+         "Relation is checked between two runs of the real code; refusal = empty dictionary.", "DESIGN.md §5 C02"),
+ "C16": ("exploration", "bounded exhaustive enumeration of packed k-mers and rolling windows against a string-level model",
+         "Complete for k<=11 (13 thorough); for every k and width all strings within Hamming distance 2 of six backgrounds isolate each 2-bit lane, mask and shift constant; rolling state is compared with the model and a from-scratch object at every window, with N at every position.",
+         "Packing convention (A,C,T,G = 0..3, first letter most significant) restated independently in the harness.", "DESIGN.md §5 C16"),
  "C15": ("exploration", "complete enumeration of finite domains (table cells, ordered observation sequences) against a set-algebra reference model, on the real tables and through real build/map",
          "Every cell of both lookup tables, every letter of the classification/weight domains and every ordered sequence of <=4 observations are enumerated (exhaustive: true); the domains are finite so nothing is left to a bound.",
          "Trusts the harness's 15-entry code<->set bijection; U is outside the algebra.", "DESIGN.md §5 C15"),
